@@ -145,7 +145,27 @@ def regen():
         status = json.loads(out.strip().splitlines()[-1])
     except Exception:
         status = {"_translator": {"ok": False, "error": out[-2000:]}}
+    # second translator (wave 4): control-flow skeletons of the algorithm drivers, numeric kernels as opaque parameters
+    skel = os.path.join(ROOT, "tools", "pyx2v_skel.py")
+    if os.path.exists(skel):
+        rc2, out2 = sh([sys.executable, skel, SRC, os.path.join(COQ, "theories", "Gen")], timeout=120)
+        try:
+            status.update(json.loads(out2.strip().splitlines()[-1]))
+        except Exception:
+            status["_skeleton_translator"] = {"ok": False, "error": out2[-2000:]}
+            for u in SKEL_UNITS_FALLBACK():
+                status[u] = {"ok": False, "error": "skeleton translator crashed: " + out2[-500:]}
     return status
+
+
+def SKEL_UNITS_FALLBACK():
+    """names of the units tools/pyx2v_skel.py is expected to produce (read from its UNITS list without importing numpy etc.)"""
+    try:
+        txt = open(os.path.join(ROOT, "tools", "pyx2v_skel.py")).read()
+        m = re.search(r"^UNITS\s*=\s*\[(.*?)\]", txt, re.S | re.M)
+        return re.findall(r'"(Gen\w+)"', m.group(1)) if m else []
+    except Exception:
+        return []
 
 
 def restore_baseline(unit):
